@@ -1,7 +1,7 @@
 (* C05 — proofs about Model/C05.v ([time_skip] comes from Gen/C05.v). *)
 From Coq Require Import ZArith NArith List Bool Lia.
 Import ListNotations.
-From Verif Require Import Lib.Corr Gen.C05 Model.C05.
+From Verif Require Import Lib.Corr Lib.Proxy_Order Gen.C05 Model.C05.
 Open Scope Z_scope.
 
 Lemma str_eqb_eq a b : str_eqb a b = true <-> a = b.
@@ -260,4 +260,46 @@ Proof.
   - apply forallb_forall. intros p _.
     apply (no_selected_of_pruned sel dbg mint maxt ms p).
     unfold proxy_decision. rewrite E. reflexivity.
+Qed.
+
+(* ---- MatchersForLabelSets ---- *)
+Lemma in_sinsert x y l : In x (sinsert y l) <-> x = y \/ In x l.
+Proof.
+  induction l as [|z r IH]; cbn [sinsert]; [cbn; intuition congruence|].
+  destruct (str_cmp y z) eqn:E; cbn [In]; try rewrite IH; try (intuition congruence).
+  apply (cmp_eq _ str_ord) in E. subst z. cbn [In]. intuition congruence.
+Qed.
+Lemma in_sset x l : In x (sset l) <-> In x l.
+Proof. induction l as [|y r IH]; cbn; [tauto|]. fold (sset r). rewrite in_sinsert, IH. intuition congruence. Qed.
+
+(* label sets with the same label names: the extra matchers accept every series of every kept set *)
+Theorem selector_sound_homogeneous lsets :
+  (forall l n, In l lsets -> In n (sel_names lsets) -> lhas l n = true) ->
+  forall s ext n, In ext lsets -> extends s ext -> In n (sel_names lsets) ->
+  (forall v, In v (sel_alts n lsets) -> str_eqb v RE_EMPTY = false) ->
+  alt_sem (sel_alts n lsets) (lget s n) = true.
+Proof.
+  intros Hh s ext n Hin He Hn Hre. unfold alt_sem. apply existsb_exists.
+  pose proof (Hh ext n Hin Hn) as Hhas. rewrite (He n Hhas).
+  exists (lget ext n). split.
+  - unfold sel_alts. apply in_sset. apply in_or_app. left. apply in_concat.
+    unfold lhas in Hhas. unfold lget. destruct (lfind ext n) as [v|] eqn:E; [|discriminate].
+    exists [v]. split; [|left; reflexivity]. apply in_map_iff. exists ext. rewrite E. tauto.
+  - rewrite Hre; [apply str_eqb_refl|].
+    unfold sel_alts. apply in_sset. apply in_or_app. left. apply in_concat.
+    unfold lhas in Hhas. unfold lget. destruct (lfind ext n) as [v|] eqn:E; [|discriminate].
+    exists [v]. split; [|left; reflexivity]. apply in_map_iff. exists ext. rewrite E. tauto.
+Qed.
+
+(* with label sets of different names the matcher generated for a name that a kept set lacks
+   rejects a series of that set that has its own label of that name *)
+Definition A : str := [97]%N. Definition B : str := [98]%N.
+Definition ex_lsets : list labels := [[(A, [49]%N)]; [(B, [50]%N)]].
+Definition ex_series : labels := [(A, [49]%N); (B, [51]%N)].
+Theorem selector_refuted :
+  exists lsets s ext n, In ext lsets /\ extends_b s ext = true /\ In n (sel_names lsets)
+    /\ alt_sem (sel_alts n lsets) (lget s n) = false.
+Proof.
+  exists ex_lsets, ex_series, [(A, [49]%N)], B. split; [left; reflexivity|]. split; [vm_compute; reflexivity|].
+  split; [vm_compute; right; left; reflexivity | vm_compute; reflexivity].
 Qed.
